@@ -18,7 +18,7 @@ from hv import Case
 
 SPEC = {
     "lean_modules": ["Honeycomb.Props.C16", "Honeycomb.Props.C16Cross", "Honeycomb.Props.C16Clip", "Honeycomb.Props.C16Insert", "Honeycomb.Props.C16Grid", "Honeycomb.Props.C16Edges",
-                     "Honeycomb.Props.C16EdgeInsert", "Honeycomb.Props.C16Chain"],
+                     "Honeycomb.Props.C16EdgeInsert", "Honeycomb.Props.C16Chain", "Honeycomb.Props.C16ChainGrid", "Honeycomb.Props.C16Step5Total", "Honeycomb.Props.C16Step5Pipe"],
     "required_theorems": ["C16_orientation_rejection_iff", "C16_orientation_accepts_iff_nodup", "C16_closed_loop_accepted",
                           "C16_repeated_origin_rejected", "C16_repeated_endpoint_rejected", "C16_grid_margins", "C16_grid_tight",
                           "C16_crossings_sound", "C16_crossings_on_grid_lines", "C16_crossings_complete", "C16_crossings_sorted", "C16_crossings_count", "C16_metadata_order", "C16_metadata_same_intersections", "C16_metadata_spec",
@@ -32,6 +32,11 @@ SPEC = {
                           "C16_buildBaseEdge_spec", "C16_markBoundary_spec", "C16_insertOneEdge_inv", "C16_insertOneEdge_shape", "C16_insert_edges_inv",
                           "C16_pipeline_clip_hyps", "C16_pipeline_clip_WF",
                           "C16_steps23_carries", "C16_stepFive_carries", "C16_crossings_are_vertices", "C16_poi_are_vertices",
+                          "C16_edge_darts_in_use", "keysOK_of_hit_edges", "C16_crossings_are_vertices_partial", "C16_poi_are_vertices_partial",
+                          "C16_sideCoords_gridMap10", "C16_hitDartsOK_gridMap10", "C16_crossings_are_vertices_on_grid",
+                          "C16_poi_are_vertices_on_grid", "C17_poi_are_node_vertices_on_grid",
+                          "C16_buildBaseEdge_ok_iff", "C16_stepFive_total_partial", "C16_pipeline_total_nopoi_partial",
+                          "C16_pipeline_total_nopoi_on_grid_partial",
                           "C17_poi_are_node_vertices", "C16_deleteDarts_spec", "C16_deleteDarts_order_independent",
                           "C16_clip_spec", "C16_clip_WF", "C16_clip_order_independent", "C16_clipLeft_spec", "C16_clipRight_spec",
                           "C16_between_crossings_one_cell"],
@@ -168,11 +173,26 @@ SPEC = {
         "capture. Proved inside: completeness + written slot of the crossing, the ALL-EDGES induction of step 3 (insertIntersections_carries / "
         "C16_steps23_carries: disjoint fresh blocks, frame transport of C14's per-edge facts), WF and no tag after step 3, vertex stability "
         "(identifier and slot) through add_free_darts, build_base_edge (carries_buildBaseEdge: orbit calculus), insert_vertices_on_edge, the "
-        "placeholder replacement and mark_boundary (C16_stepFive_carries). NAMED HYPOTHESES, each with a satisfiable example and evaluated by "
-        "the `whole pipeline` tie on every case: success of the run (so step 5 does not hit the consecutive-darts panic of build_base_edge); "
+        "placeholder replacement and mark_boundary (C16_stepFive_carries); EdgeDartsInUse (C16_edge_darts_in_use: in general position every key / "
+        "end of new_segments is a written slot, whose dart is in use and 2-linked after step 3: second all-edges induction "
+        "insertIntersections_linked) and KeysOK (keysOK_of_hit_edges) are now PROVED — the `_partial` theorems keep them as hypotheses. "
+        "On the grid of the model's builder (Props/C16ChainGrid.lean: gridMap10 = buildGrid2 of C12 + the session's storages) SideCoords and "
+        "HitDartsOK are THEOREMS (C16_sideCoords_gridMap10, C16_hitDartsOK_gridMap10: C12's vertex positions / beta tables + "
+        "C16_crossings_sound, for geometries inside the grid with one cell of margin = C16_grid_margins), so "
+        "C16_crossings_are_vertices_on_grid / C16_poi_are_vertices_on_grid / C17_poi_are_node_vertices_on_grid carry NO hypothesis about the "
+        "map. REMAINING NAMED HYPOTHESES of the full forms, each with a satisfiable example and evaluated by "
+        "the `whole pipeline` tie on every case: success of the run — for step 5 a DECIDABLE condition is now proved (Props/C16Step5Total.lean): "
+        "C16_buildBaseEdge_ok_iff (build_base_edge succeeds EXACTLY when start has a successor, end a predecessor and beta1(start) != end: the "
+        "consecutive-darts panic is its only failure) and C16_stepFive_total_partial (all of insert_edges_in_map succeeds when every edge is "
+        "`Ready` in the map BEFORE the step, for edges without intermediate point of interest; with intermediates the forward totality of "
+        "the editing part of insert_vertices_on_edge is missing: C14 proves Ok => structure, not => Ok); inside the pipeline "
+        "(Props/C16Step5Pipe.lean) C16_pipeline_total_nopoi_partial / _on_grid_partial: for geometries WITHOUT point of interest every edge of "
+        "step 4 has no intermediate (edgeData_nopoi), so `pipelineReady` (steps 2-3 succeed, every edge Ready in the map after step 3: decidable, "
+        "checked before step 5) implies that the whole pipeline succeeds; "
         "SideCoords (the grid map carries the side the kernel computed at every crossing dart: builder coordinates + C16_crossings_sound; "
-        "clause `position`); KeysOK (step 2 iterates distinct in-use identifier darts incl. every hit edge); EdgeDartsInUse (start / end "
-        "darts of step 4 are in use; clause `edge-darts-in-use`); OnChain (the point of interest lies on a chain leaving an intersection: "
+        "clause `position`); HitDartsOK (about the grid map only: the darts the slots name are in use, have a successor and are 2-linked — "
+        "interior grid edges); KeysAreHitEdges (about the HashMap only: it yields each key once and its keys are exactly the edges hit); the keys "
+        "of step 4 are intersections (the filter of generate_edge_data); OnChain (the point of interest lies on a chain leaving an intersection: "
         "false exactly for D16a). NOT needed by these clauses and NOT proved: EdgesInOneCell (each new edge inside one cell across segment "
         "joints: evaluated by the clause `edges-in-one-cell`; C16_between_crossings_one_cell covers one segment); that closed consistently "
         "oriented loops crossing a grid line satisfy OnChain for all their points of interest (graph argument on new_segments, not done); "
@@ -899,6 +919,11 @@ def shift_geometry(rng, keep_all_poi, depth):
         if sg is None or sg[4] == 0:
             continue
         g.fixed_grid, g.shifts = sg[:4], sg[4]
+        # the property's hypothesis is general position with respect to the grid the call ENDS with: grisubal's loop only
+        # shifts away corners and reflections, so a vertex may by chance remain on a line of the final grid (e.g. a segment
+        # lying along it: `VertexBound` panic, recorded as an observation outside C16 in DESIGN 13.4) -- not part of this stream
+        if not g.general_position():
+            continue
         return g
     return None
 
@@ -912,6 +937,28 @@ def shift_geometries(rng, count, keep_all_poi):
         if g is not None:
             res.append(g)
     return res
+
+
+def flat_shape_cases(rng, count, cmd):
+    """shapes the pre-processing refuses (`InvalidShape`): no vertex, all vertices on one vertical / horizontal line -- the
+    answer of the call vs the model's `overlappingGrid` (notes/TIECOV.md: no stream executed these arms)"""
+    cases = []
+    for k in range(count):
+        kind = k % 3
+        n = 0 if kind == 0 else rng.randint(1, 5)
+        c = Fr(rng.randint(-8, 8), 4)
+        pts = [((c, Fr(rng.randint(-12, 12), 4)) if kind == 1 else (Fr(rng.randint(-12, 12), 4), c)) for _ in range(n)]
+        segs = [(i, i + 1) for i in range(n - 1)]
+        cell = rng.choice([(Fr(1), Fr(1)), (Fr(1, 2), Fr(1)), (Fr(2), Fr(1, 2))])
+        toks = [f"ogridg {cmd} none", gg.rs(cell[0]), gg.rs(cell[1]), str(n)] + [f"{gg.rs(x)} {gg.rs(y)}" for x, y in pts] + \
+            [str(len(segs))] + [f"{a} {b}" for a, b in segs] + ["0"]
+        cases.append(Case(f"flat-{cmd}-{k}", ["new 2 0 0", " ".join(toks)], oracle="flat", meta={"sig": "ogridg-flat", "n": n}))
+
+    def orc(case, li):
+        if len(li) < 2 or not li[1].startswith("err InvalidShape"):
+            return f"a shape with no extent along an axis was not refused: {li[1] if len(li) > 1 else None!r}"
+        return None
+    return hv.campaign(cases, orc)
 
 
 def shift_grid_tie(geos, cmd):
@@ -1675,6 +1722,8 @@ def run(tier, seed):
     shg = shift_geometries(rng, 40 * mult, False)
     parts.append(("origin-shift loop of compute_overlapping_grid (vertices on corners of the first grid): grid of the returned map vs model "
                   "`overlappingGrid` vs independent evaluation", shift_grid_tie(shg, "grisubal")))
+    parts.append(("shapes without extent along an axis / without vertices are refused (InvalidShape), model vs implementation",
+                  flat_shape_cases(rng, 60 * mult, "grisubal")))
     parts.append(("origin-shift loop: grisubal on the shifted polygons that are in general position w.r.t. the FINAL grid (in scope, exact oracle)",
                   gg.impl_campaign(shift_cases([g for g in shg if g.general_position()]), oracle)))
     zp = []
